@@ -574,7 +574,10 @@ func TestReuse(t *testing.T) {
 		if c.Rect[2] == 1 || c.Rect[3] == 1 {
 			labels = append(labels, "target-one-pixel-wide-or-high")
 		}
-		switch rapid.IntRange(0, 5).Draw(t, "arect") {
+		switch rapid.IntRange(0, 6).Draw(t, "arect") {
+		case 6: // the same size somewhere else (the previous cell of a sheet)
+			c.ARect = &[4]int{c.Rect[0] + rapid.SampledFrom([]int{-c.Rect[2], c.Rect[2], 7, 0}).Draw(t, "asx"), c.Rect[1] + rapid.SampledFrom([]int{c.Rect[3], 0, 5}).Draw(t, "asy"), c.Rect[2], c.Rect[3]}
+			labels = append(labels, "A-drawn-into-a-rectangle-of-the-same-size-elsewhere")
 		case 0:
 			c.ARect = &[4]int{c.Rect[0], c.Rect[1], rapid.SampledFrom([]int{0, c.Rect[2]}).Draw(t, "aw"), 0}
 			labels = append(labels, "A-drawn-into-an-empty-rectangle")
